@@ -14,7 +14,7 @@ TRUSTED_BASE = [
     "prepare_url / prepare_body / body serializers are used through their own contracts (URL composition is audited natively)",
 ]
 ASSUMPTIONS = ["arrays up to 3 elements and objects up to 2 properties with string elements (labelled bounded); element strings contain none of the style's delimiters"]
-NOT_DECIDED = ["WSGI / ASGI transports beyond the shared serialize_case", "multipart bodies", "nested booleans/None inside lists (jsonify_python_specific_types)"]
+NOT_DECIDED = ["WSGI / ASGI transports beyond the shared serialize_case", "nested booleans/None inside lists (jsonify_python_specific_types)"]
 EXPLANATION = ("Each style encoder's output is proved equal to the wire form that the OpenAPI / RFC 6570 serialization table prescribes for (style, explode, type) - so the standard "
                "decoder recovers the value; serialize_case passes the query values through unchanged except {} -> '' and sets Content-Type to the case's media type.")
 
@@ -763,6 +763,71 @@ R.contract(
     },
 )
 R.spec_funcs["same_obj"] = lambda it, a, b: a is b
+
+
+# ------------------------------------------------------------------------------------------------- OpenAPI 3 multipart: every declared field of the generated form is sent
+# The fields / files are selected by the properties of the body schema. The schema of a media type is normally a `$ref` ("#/components/schemas/Form"); what counts is the
+# operation's EFFECTIVE (resolved) definition - whatever the spelling of the raw document.
+OAS3 = "schemathesis.specs.openapi.schemas:OpenApi30."
+_FORM_SCHEMA = {"type": "object", "properties": {"name": {"type": "string"}, "file": {"type": "string", "format": "binary"}, "tags": {"type": "array", "items": {"type": "string"}}}}
+
+
+class _MultipartDefinition(D):
+    """operation.definition: `resolved` has the body schema inlined; `raw` spells it inline, as a `$ref` schema, or as a `$ref` request body."""
+
+    def make(self, it, name, idx=()):
+        from pyvc.values import VObj
+
+        mt = it.path.choose([("multipart/form-data", True), ("*/*", True), ("multipart/mixed", True)], "media-type")
+        resolved = {"requestBody": {"required": True, "content": {mt: {"schema": it.B._deepcopy(_FORM_SCHEMA, {})}}}, "responses": {}}
+        spelling = it.path.choose([("inline", True), ("schema-ref", True), ("body-ref", True)], "raw-spelling")
+        if spelling == "inline":
+            raw = it.B._deepcopy(resolved, {})
+        elif spelling == "schema-ref":
+            raw = {"requestBody": {"required": True, "content": {mt: {"schema": {"$ref": "#/components/schemas/Form"}}}}, "responses": {}}
+        else:
+            raw = {"requestBody": {"$ref": "#/components/requestBodies/Upload"}, "responses": {}}
+        it.ghost["media_type"] = mt
+        return VObj(it.resolve_class("spec:OpDefinition"), {"raw": raw, "resolved": resolved, "scope": ""})
+
+
+# (InliningResolver.resolve_all called at the recursion limit - as the unrepaired code did for a `$ref` request body - resolves the body itself and leaves nested references alone)
+R.nominal_methods["spec:LimitResolver"] = {"resolve_all": lambda it, obj, a, k: {"required": True, "content": {it.ghost["media_type"]: {"schema": {"$ref": "#/components/schemas/Form"}}}},
+                                           "push_scope": lambda it, obj, a, k: None, "pop_scope": lambda it, obj, a, k: None}
+_FieldValue = lambda: OneOf(Opq("FieldValue"), ListOf(Opq("FieldValue"), [1, 2], widen=False))
+
+
+def _parse_concrete_media_type(it, env):
+    mt = env["media_type"]
+    if not isinstance(mt, str) or ";" in mt or "/" not in mt:
+        raise OutOfSubset("media_types.parse on a symbolic / parameterised media type")
+    main, sub = mt.split("/", 1)
+    return (main.strip().lower(), sub.strip().lower())
+
+
+if "schemathesis.core.media_types:parse" not in R.contracts:
+    R.contract("schemathesis.core.media_types:parse", args={"media_type": Opq("Any")}, returns=_parse_concrete_media_type, trusted=True,
+               note="C04 stand-in (media type parsing): (main type, sub type), lower-cased - computed exactly on the concrete media types used here")
+R.spec_funcs["files_of"] = lambda it, result: result[0] if result[0] is not None else []
+R.contract(
+    OAS3 + "prepare_multipart",
+    prop="C06",
+    args={"self": Obj(OAS3.rstrip("."), resolver=Obj("spec:LimitResolver")), "form_data": DictOf(optional={"name": _FieldValue(), "file": _FieldValue(), "tags": _FieldValue()}),
+          "operation": Obj("spec:MultipartOperation", definition=_MultipartDefinition())},
+    ghost={"media_type": None},
+    raises=[],
+    ensures={
+        # the request carries the generated case: every generated field that the body schema declares is sent - however the raw document spells the schema
+        "every_declared_field_of_the_generated_form_is_sent": "all(any(f[0] == n for f in files_of(result)) for n in form_data)",
+        # a list value becomes one part per item, a binary property is sent as a file (name, value), any other as a plain field (name, (None, value))
+        "each_part_carries_the_generated_value": "all(((length([f for f in files_of(result) if f[0] == n]) == length(form_data[n]) and all(any(f[0] == n and f[1] is item for f in files_of(result)) for item in form_data[n])) "
+                                                 "if is_instance(form_data[n], 'list') else "
+                                                 "any(f[0] == n and ((f[1] is form_data[n]) if n == 'file' else (f[1][0] is None and f[1][1] is form_data[n])) for f in files_of(result))) for n in form_data)",
+        "nothing_else_is_sent": "result[1] is None and (result[0] is None or all(f[0] in form_data for f in files_of(result))) and iff(result[0] is None, length(form_data) == 0)",
+    },
+    bounded_note="forms over the fields name / file (binary) / tags, three spellings of the raw definition, three matching media types",
+    replayable=False,
+)
 
 LEVEL_TEXT = ("Deductive: each style encoder against the wire form of the OpenAPI serialization table, serialize_case's query/cookie/method/url pass-through; "
               "arrays/objects explored up to a small size (labelled bounded). URL composition and the requests library are trusted. Level other.")
